@@ -23,7 +23,7 @@ U = "mtbl/compression.c"
 
 def switch_table(prog, cg, f, param_name):
     """tag -> list of paths"""
-    ev = APE.run(prog, cg, f, bound=1)
+    ev = APE.run(prog, cg, f, bound=APE.BOUND)
     out = {}
     for p in ev.paths:
         tag = None
@@ -72,7 +72,7 @@ def run(ctx, res):
     # ---- from_str ----------------------------------------------------------------
     fs = prog.need("mtbl_compression_type_from_str", U)
     res.saw(fs)
-    ev = APE.run(prog, cg, fs, bound=1)
+    ev = APE.run(prog, cg, fs, bound=APE.BOUND)
     parsed = {}
     unknown_ok = None
     for p in ev.paths:
@@ -150,7 +150,7 @@ def run(ctx, res):
     for fn, r in comp_funcs.items():
         f = prog.need(fn, U)
         res.saw(f)
-        ev = APE.run(prog, cg, f, bound=1)
+        ev = APE.run(prog, cg, f, bound=APE.BOUND)
         _sizing(res, f, ev, r)
         _errors(res, f, ev, liberr, OKV, FAILV)
         _frees(res, f, ev, OKV, FAILV)
@@ -159,7 +159,7 @@ def run(ctx, res):
     for fn in sorted(set(r["decompress"] for r in rows.values() if r["decompress"])):
         f = prog.need(fn, U)
         res.saw(f)
-        ev = APE.run(prog, cg, f, bound=1)
+        ev = APE.run(prog, cg, f, bound=APE.BOUND)
         _errors(res, f, ev, liberr, OKV, FAILV)
         _frees(res, f, ev, OKV, FAILV)
     _lz4_prefix(ctx, res)
@@ -397,7 +397,7 @@ def _lz4_prefix(ctx, res):
     res.floor("C15.R4", 3)
     for fn in ("_mtbl_compress_lz4", "_mtbl_compress_lz4hc"):
         f = prog.need(fn, U)
-        ev = APE.run(prog, cg, f, bound=1)
+        ev = APE.run(prog, cg, f, bound=APE.BOUND)
         for p in ev.paths:
             if p.end != "exit" or p.ret() != ("c", prog.enums["mtbl_res"]["mtbl_res_success"]):
                 continue
@@ -414,7 +414,7 @@ def _lz4_prefix(ctx, res):
                           [APE.vstr(x) for x in enc[0].b] if enc else None, APE.vstr(lib[0].b[1]) if lib else None,
                           APE.vstr(outs[-1].b) if outs else None), f.loc(f.body), p.describe(f))
     f = prog.need("_mtbl_decompress_lz4", U)
-    ev = APE.run(prog, cg, f, bound=1)
+    ev = APE.run(prog, cg, f, bound=APE.BOUND)
     inn, insz = f.params[0]["name"], f.params[1]["name"]
     for p in ev.paths:
         if p.end != "exit" or p.ret() != ("c", prog.enums["mtbl_res"]["mtbl_res_success"]):
@@ -435,7 +435,7 @@ def _inflate_growth(ctx, res):
     """R7: when the zlib output buffer is enlarged, inflate is told exactly the room that was added, at the old end."""
     prog, cg = ctx.prog, ctx.cg
     f = prog.need("_mtbl_decompress_zlib", U)
-    ev = APE.run(prog, cg, f, bound=1, opaque_calls=("my_realloc",))
+    ev = APE.run(prog, cg, f, bound=APE.BOUND, opaque_calls=("my_realloc",))
     res.floor("C15.R7", 1)
     n = 0
     for p in ev.paths:
